@@ -535,17 +535,29 @@ def DS.members (suppress : Bool) (ds : DS) (d : IpSetDef) : List C04.Member :=
 /-- insertion sort with the PolicySorter's comparators (`btInsert` of C03) -/
 def sortWith {α} (less : α → α → Bool) (l : List α) : List α := l.foldl (fun acc x => C03.btInsert less x acc) []
 
+/-- metadata of the active policies (`ExtractPolicyMetadata`) -/
+def DS.metas (ds : DS) : List C02.PolKV :=
+  ds.activePols.map (fun p => (⟨p.1, C03.extractPolicyMetadata p.2.pmeta⟩ : C02.PolKV))
+
+/-- every tier that exists or is named by an active policy (each once) -/
+def DS.tierNames (ds : DS) : List String :=
+  C03.addAll ((ds.tiers.map (·.1)) ++ ds.metas.map (·.val.tier)) []
+
+/-- the PolicySorter's record for tier `n`: order / default action from the tier resource (absent: unset
+order, no action, not valid), and the active policies naming it, ascending under `PolKVLess` -/
+def DS.tierInfo (ds : DS) (n : String) : C02.TierInfo :=
+  let t := C02.mget ds.tiers n
+  { name := n, order := (t.map (·.1)).getD none, defaultAction := (t.map (·.2)).getD "", valid := t.isSome,
+    policies := sortWith C03.polKVLess (ds.metas.filter (fun kv => kv.val.tier = n)) }
+
+/-- `TierLess` on the sorter's records -/
+def tierInfoLess (a b : C02.TierInfo) : Bool :=
+  C03.tierLess ⟨a.name, a.valid, a.order⟩ ⟨b.name, b.valid, b.order⟩
+
 /-- the PolicySorter's output: every tier that exists or holds an active policy, ascending under
 `TierLess`; inside a tier the active policies ascending under `PolKVLess`. -/
 def DS.sortedTiers (ds : DS) : List C02.TierInfo :=
-  let metas := ds.activePols.map (fun p => (⟨p.1, C03.extractPolicyMetadata p.2.pmeta⟩ : C02.PolKV))
-  let names := ((ds.tiers.map (·.1)) ++ metas.map (·.val.tier)).eraseDups
-  let infos := names.map (fun n =>
-    let t := C02.mget ds.tiers n
-    ({ name := n, order := (t.map (·.1)).getD none, defaultAction := (t.map (·.2)).getD "", valid := t.isSome,
-       policies := sortWith C03.polKVLess (metas.filter (fun kv => kv.val.tier = n)) } : C02.TierInfo))
-  let keys := sortWith C03.tierLess (infos.map (fun t => (⟨t.name, t.valid, t.order⟩ : C03.TierKey)))
-  keys.filterMap (fun k => infos.find? (fun t => t.name = k.name))
+  sortWith tierInfoLess (ds.tierNames.map ds.tierInfo)
 
 /-- what a fresh Felix has told the dataplane once it is in sync and has flushed -/
 structure Fresh where
